@@ -94,7 +94,8 @@ def exhaustive_maps(max_syms):
 def random_map(rng):
     n = rng.choice([1, 2, 2, 3, 3, 4, 4])
     syms = rng.sample(SYMS, n)
-    return [(s, py_variants(rng.choice(U.EXPONENTS), rng)) for s in syms]
+    pool = U.EXPONENTS if rng.random() < 0.6 else U.EXPONENTS + U.MORE_EXPONENTS + U.MORE_EXPONENTS
+    return [(s, py_variants(rng.choice(pool), rng)) for s in syms]
 
 
 def odd_map(rng):
@@ -111,7 +112,10 @@ def run_edit(style, unit_string, edit, n=3):
     """returns (maps before, None | maps after)"""
     import qexpy as q
     q.set_unit_style(q.UnitStyle.EXPONENTS)
-    arr = q.MeasurementArray([1.0 + i for i in range(n)], 0.5, unit=unit_string, name="arr")
+    try:
+        arr = q.MeasurementArray([1.0 + i for i in range(n)], 0.5, unit=unit_string, name="arr")
+    except Exception:  # noqa
+        return None, None
     before = [list(x._unit.items()) for x in arr]
     q.set_unit_style(_style(style))
     try:
@@ -206,6 +210,10 @@ def correspondence(ctx):
         for st in STYLES:
             edit = rng.choice([["append"], ["insert", rng.randrange(0, 4)], ["setitem", rng.randrange(0, 3)]])
             before, after = run_edit(st, us, edit)
+            if before is None:
+                res.disagreements.append({"name": "MeasurementArray(unit=...) raised for a unit in the domain", "kind": "map",
+                                          "case": {"map": [[k, v] for k, v in m]}})
+                continue
             edits.append((st, edit, us, before, after))
             res.count("edit:{}:{}:{}".format(edit[0], st, "ok" if after is not None else "raised"))
             res.nontrivial.add("edit:" + st + ":" + edit[0] + ":" + us)
@@ -339,6 +347,8 @@ def judge_api(pairs, how):
             if how == "same":
                 for edit in (["append"], ["insert", 1], ["setitem", 0]):
                     before, after = run_edit(st, us, edit)
+                    if before is None:
+                        return "MeasurementArray(unit={!r}) raises".format(us)
                     if after is None:
                         return "style {}: MeasurementArray(unit={!r}).{} raises".format(st.lower(), us, edit[0])
                     for a in after:
